@@ -317,6 +317,153 @@ Proof.
   destruct (sel_obs n ob a Ha) as [_ H2]. rewrite H2. reflexivity.
 Qed.
 
+(* ------------------------------------------------------------------ batch mode under 'mask' *)
+
+Lemma is_obs_mean_cache_mask_ob n ob Aoinv r i : is_obs (mean_cache_mask_ob n ob Aoinv r) i = ob i.
+Proof. unfold mean_cache_mask_ob. unfold is_obs. destruct (ob i); reflexivity. Qed.
+
+Lemma mean_cache_mask_ob_entry n ob Aoinv (r : nvec) a :
+  (a < nobs n ob)%nat ->
+  vals 0 (mean_cache_mask_ob n ob Aoinv r) (sel (obs_list n ob) a) O
+  = mmul (nobs n ob) Aoinv (mask_rows n ob (vals 0 r)) a O.
+Proof.
+  intros Ha. destruct (sel_obs n ob a Ha) as [H1 H2].
+  unfold vals at 1. unfold mean_cache_mask_ob. cbv zeta. rewrite H2.
+  rewrite (rank_sel n ob a Ha). reflexivity.
+Qed.
+
+(* the prediction read back through the cache's own NaN pattern is the posterior mean of the data
+   set with the masked indices deleted - for ANY mask that covers the NaNs of this element *)
+Lemma mask_ob_mean_is_deletion n t ob KJ muJ Aoinv (y : nvec) :
+  (forall i, (i < n)%nat -> ob i = true -> is_obs y i = true) ->
+  meq t 1 (pred_mean_mask n (Ksx n KJ) (sub n 0 muJ) (mean_cache_mask_ob n ob Aoinv (offset muJ y)))
+          (del_mean_ob n ob KJ muJ Aoinv y).
+Proof.
+  intros Hcov. set (r := offset muJ y).
+  assert (Hob : forall i, is_obs (mean_cache_mask_ob n ob Aoinv r) i = ob i)
+    by (intros i; apply is_obs_mean_cache_mask_ob).
+  unfold pred_mean_mask, del_mean_ob, post_mean, mean_cache. cbv zeta.
+  rewrite (nobs_ext n _ ob Hob), (mask_cols_ext n _ ob _ Hob), (mask_rows_ext n _ ob _ Hob).
+  apply madd_compat.
+  - apply mmul_compat.
+    + symmetry. apply del_Ksx.
+    + intros a c Ha Hc. assert (c = O) by lia. subst c.
+      unfold mask_rows at 1. unfold gather, idx.
+      rewrite (mean_cache_mask_ob_entry n ob Aoinv r a Ha).
+      apply (mmul_compat_r (nobs n ob) (nobs n ob) 1); try lia.
+      intros a' c' Ha' Hc'. assert (c' = O) by lia. subst c'.
+      unfold msub, mask_rows, gather, sub, mu_del, gather, idx. cbn [Nat.add].
+      destruct (sel_obs n ob a' Ha') as [H1 H2]. unfold nobs in Ha'.
+      rewrite selJ_train by exact Ha'.
+      unfold r. apply (vals_offset 0 muJ y). apply Hcov; assumption.
+  - intros i c Hi Hc. unfold sub, mu_del, gather, idx. cbn [Nat.add]. unfold nobs.
+    rewrite selJ_test. reflexivity.
+Qed.
+
+Lemma batch_observed_covers B ys b i : (b < B)%nat -> batch_observed B ys i = true -> is_obs (ys b) i = true.
+Proof.
+  intros Hb H. unfold batch_observed in H. rewrite forallb_forall in H. apply H. apply in_seq. lia.
+Qed.
+
+(* batch reading of 'mask': every batch element predicts as if the UNION of the missing indices
+   had been deleted from it *)
+Lemma batch_mask_mean_is_deletion B n t (ys : nat -> nvec) b KJ muJ Aoinv :
+  (b < B)%nat ->
+  let ob := batch_observed B ys in
+  meq t 1 (pred_mean_mask n (Ksx n KJ) (sub n 0 muJ) (mean_cache_mask_ob n ob Aoinv (offset muJ (ys b))))
+          (del_mean_ob n ob KJ muJ Aoinv (ys b)).
+Proof.
+  intros Hb ob. apply mask_ob_mean_is_deletion.
+  intros i _ Hi. apply (batch_observed_covers B ys b i Hb Hi).
+Qed.
+
+(* with the element's own NaN pattern as mask this is the single-output definition *)
+Lemma mean_cache_mask_ob_own n Aoinv (r : nvec) i :
+  mean_cache_mask_ob n (is_obs r) Aoinv r i = mean_cache_mask n Aoinv r i.
+Proof. reflexivity. Qed.
+
+
+(* ------------------------------------------------------------------ exact_predictive_covar as coded *)
+
+(* no NaN among the first n targets: the mask selects everything *)
+Lemma has_missing_false n (y : nvec) :
+  has_missing n y = false -> forall i, (i < n)%nat -> is_obs y i = true.
+Proof.
+  unfold has_missing. intros H i Hi. apply negb_false_iff in H.
+  rewrite forallb_forall in H. apply H. apply in_seq. lia.
+Qed.
+
+Lemma filter_all_true (ob : nat -> bool) s n :
+  (forall i, (s <= i < s + n)%nat -> ob i = true) -> filter ob (seq s n) = seq s n.
+Proof.
+  revert s. induction n as [|n IH]; intros s H; [reflexivity|].
+  cbn [seq filter]. rewrite (H s) by lia. f_equal. apply IH. intros i Hi. apply H. lia.
+Qed.
+
+Lemma obs_list_all n ob : (forall i, (i < n)%nat -> ob i = true) -> obs_list n ob = seq 0 n.
+Proof. intros H. unfold obs_list. apply filter_all_true. intros i Hi. apply H. lia. Qed.
+
+Lemma nobs_all n ob : (forall i, (i < n)%nat -> ob i = true) -> nobs n ob = n.
+Proof. intros H. unfold nobs. rewrite (obs_list_all n ob H). apply seq_length. Qed.
+
+Lemma sel_all n ob a : (forall i, (i < n)%nat -> ob i = true) -> (a < n)%nat ->
+  sel (obs_list n ob) a = a.
+Proof. intros H Ha. unfold sel. rewrite (obs_list_all n ob H). rewrite seq_nth by exact Ha. reflexivity. Qed.
+
+(* without NaNs the "deleted" data set is the data set *)
+Lemma masked_all n ob A : (forall i, (i < n)%nat -> ob i = true) ->
+  meq n n (masked n n ob ob A) A.
+Proof.
+  intros H i j Hi Hj. unfold masked, gather. rewrite !(sel_all n ob _ H) by assumption. reflexivity.
+Qed.
+
+Lemma del_cov_all n t ob KJ Ainv : (forall i, (i < n)%nat -> ob i = true) ->
+  meq t t (del_cov n ob KJ Ainv) (post_cov n KJ Ainv).
+Proof.
+  intros H. transitivity (cov_masked n ob KJ Ainv); [symmetry; apply mask_cov_is_deletion|].
+  unfold cov_masked, post_cov. cbv zeta. rewrite (nobs_all n ob H).
+  apply msub_compat; [reflexivity|].
+  assert (HG : meq t n (mask_cols n ob (Ksx n KJ)) (Ksx n KJ)).
+  { intros i j Hi Hj. unfold mask_cols, gather, idx. rewrite (sel_all n ob j H Hj). reflexivity. }
+  apply mmul_compat; [exact HG|]. apply mmul_compat_r. apply mT_compat. exact HG.
+Qed.
+
+(* mask_is_deletion / fill_is_deletion for the covariance the CURRENT code returns: every n, t,
+   NaN pattern (none included), either policy *)
+Lemma pred_cov_is_deletion n t p KJ S Ainv Aoinv Afinv (y : nvec) :
+  let A := train_covar KJ S in let ob := is_obs y in
+  is_inverse n A Ainv ->
+  is_inverse n (fill_kernel ob A) Afinv ->
+  is_inverse (nobs n ob) (masked n n ob ob A) Aoinv ->
+  meq t t (pred_cov n p KJ Ainv Aoinv Afinv y) (del_cov n ob KJ Aoinv).
+Proof.
+  intros A ob Ha Hf Ho. unfold pred_cov. destruct (has_missing n y) eqn:Hm.
+  - destruct p.
+    + apply mask_cov_is_deletion.
+    + apply (fill_cov_is_deletion n t ob KJ S Afinv Aoinv Hf Ho).
+  - assert (Hall := has_missing_false n y Hm). fold ob in Hall.
+    rewrite (del_cov_all n t ob KJ Aoinv Hall).
+    assert (Hn := nobs_all n ob Hall). rewrite Hn in Ho.
+    assert (Ho' : is_inverse n A Aoinv).
+    { apply (is_inverse_compat n (masked n n ob ob A) A Aoinv); [apply masked_all; exact Hall|exact Ho]. }
+    assert (E := inverse_unique n A Ainv Aoinv Ha Ho').
+    unfold post_cov. apply msub_compat; [reflexivity|]. apply mmul_compat_r. apply mmul_compat_l. exact E.
+Qed.
+
+(* the policy does not matter: both return the same covariance *)
+Lemma pred_cov_policy_irrelevant n t KJ S Ainv Aoinv Afinv (y : nvec) :
+  let A := train_covar KJ S in let ob := is_obs y in
+  is_inverse n A Ainv ->
+  is_inverse n (fill_kernel ob A) Afinv ->
+  is_inverse (nobs n ob) (masked n n ob ob A) Aoinv ->
+  meq t t (pred_cov n PMask KJ Ainv Aoinv Afinv y) (pred_cov n PFill KJ Ainv Aoinv Afinv y).
+Proof.
+  intros A ob Ha Hf Ho.
+  transitivity (del_cov n ob KJ Aoinv).
+  - apply (pred_cov_is_deletion n t PMask KJ S Ainv Aoinv Afinv y Ha Hf Ho).
+  - symmetry. apply (pred_cov_is_deletion n t PFill KJ S Ainv Aoinv Afinv y Ha Hf Ho).
+Qed.
+
 (* ------------------------------------------------------------------ policy histories *)
 
 Definition memo_ok n Aoinv Afinv (r : nvec) fv (m : memo) : Prop :=
@@ -428,12 +575,45 @@ Proof.
   - intros i Hi. unfold elp_fill. rewrite Hi. ring.
 Qed.
 
+(* the general form: any pointwise term, any fill value *)
+Lemma pointwise_fill_sum_is_deletion n fv (y : nvec) (g : car -> nat -> car) :
+  sum n (pointwise_fill fv y g) = sum (nobs n (is_obs y)) (pointwise_del n y g).
+Proof.
+  set (ob := is_obs y).
+  transitivity (sum n (fun i => if ob i then g (vals 0 y i O) i else 0)).
+  - apply sum_ext. intros i _. unfold pointwise_fill. fold ob. destruct (ob i) eqn:E; [|ring].
+    rewrite (vals_obs fv 0 y i E). ring.
+  - rewrite sum_obs. reflexivity.
+Qed.
+
+Lemma pointwise_fill_entries n fv (y : nvec) (g : car -> nat -> car) :
+  (forall a, (a < nobs n (is_obs y))%nat ->
+     pointwise_fill fv y g (sel (obs_list n (is_obs y)) a) = pointwise_del n y g a)
+  /\ (forall i, is_obs y i = false -> pointwise_fill fv y g i = 0).
+Proof.
+  split.
+  - intros a Ha. destruct (sel_obs n _ a Ha) as [_ H2]. unfold pointwise_fill. rewrite H2.
+    rewrite (vals_obs fv 0 y _ H2). unfold pointwise_del, y_del, mask_rows, gather, idx. ring.
+  - intros i Hi. unfold pointwise_fill. rewrite Hi. ring.
+Qed.
+
+Lemma pointwise_fill_is_deletion n fv (y : nvec) (g : car -> nat -> car) :
+    (forall a, (a < nobs n (is_obs y))%nat ->
+       pointwise_fill fv y g (sel (obs_list n (is_obs y)) a) = pointwise_del n y g a)
+    /\ (forall i, is_obs y i = false -> pointwise_fill fv y g i = 0)
+    /\ sum n (pointwise_fill fv y g) = sum (nobs n (is_obs y)) (pointwise_del n y g).
+Proof.
+  destruct (pointwise_fill_entries n fv y g) as [H1 H2].
+  split; [exact H1|]. split; [exact H2|]. apply pointwise_fill_sum_is_deletion.
+Qed.
+
 End Proofs.
 
-(* ------------------------------------------------------------------ the code as it stands *)
+(* ------------------------------------------------------------------ the masking is necessary (model of the OLD code) *)
 
-(* exact_predictive_covar has no mask: n = 2 train points of which the second is NaN, one test
-   point, K = [[1,1/2,1/2],[1/2,1,1/2],[1/2,1/2,1]], S = I.  The code returns 4/5, deletion 7/8. *)
+(* exact_predictive_covar WITHOUT the mask (the code before fix 0d5c998): n = 2 train points of
+   which the second is NaN, one test point, K = [[1,1/2,1/2],[1/2,1,1/2],[1/2,1/2,1]], S = I.
+   The old code returned 4/5, deletion is 7/8; the current code ([pred_cov]) returns 7/8. *)
 Definition wit_KJ : @M QcF :=
   fun i j => if Nat.eqb i j then 1%Qc else Q2Qc (1 # 2).
 Definition wit_S : @M QcF := mI.
@@ -442,12 +622,12 @@ Definition wit_Ainv : @M QcF :=
   fun i j => if Nat.eqb i j then Q2Qc (8 # 15) else Q2Qc (-2 # 15).
 Definition wit_Aoinv : @M QcF := fun _ _ => Q2Qc (1 # 2).
 
-Lemma cov_as_coded_refuted :
+Lemma cov_unmasked_old_differs :
   exists (n t : nat) (KJ S Ainv Aoinv : @M QcF) (y : @nvec QcF),
     symmetric (n + t) KJ /\
     is_inverse n (train_covar KJ S) Ainv /\
     is_inverse (nobs n (is_obs y)) (masked n n (is_obs y) (is_obs y) (train_covar KJ S)) Aoinv /\
-    ~ meq t t (cov_as_coded n KJ Ainv) (del_cov n (is_obs y) KJ Aoinv).
+    ~ meq t t (cov_unmasked_old n KJ Ainv) (del_cov n (is_obs y) KJ Aoinv).
 Proof.
   exists 2%nat, 1%nat, wit_KJ, wit_S, wit_Ainv, wit_Aoinv, wit_y.
   split; [|split; [|split]].
@@ -467,4 +647,27 @@ Lemma ex_fill_hypotheses :
 Proof.
   exists (fun i j => if Nat.eqb i j then Q2Qc (1 # 2) else 0%Qc).
   split; split; apply meqb_sound; vm_compute; reflexivity.
+Qed.
+
+(* the witness data meets every hypothesis of pred_cov_is_deletion, has a missing target, and
+   the covariance the current code returns on it is the deletion value 7/8 under both policies *)
+Definition q7_8 : Qc := Q2Qc (7 # 8).
+Definition q4_5 : Qc := Q2Qc (4 # 5).
+Definition wit_Afinv : @M QcF := fun i j => if Nat.eqb i j then Q2Qc (1 # 2) else 0%Qc.
+Lemma ex_pred_cov_witness :
+  is_inverse 2 (train_covar wit_KJ wit_S) wit_Ainv /\
+  is_inverse 2 (fill_kernel (is_obs wit_y) (train_covar wit_KJ wit_S)) wit_Afinv /\
+  is_inverse (nobs 2 (is_obs wit_y))
+    (masked 2 2 (is_obs wit_y) (is_obs wit_y) (train_covar wit_KJ wit_S)) wit_Aoinv /\
+  has_missing 2 wit_y = true /\
+  pred_cov 2 PMask wit_KJ wit_Ainv wit_Aoinv wit_Afinv wit_y O O = q7_8 /\
+  pred_cov 2 PFill wit_KJ wit_Ainv wit_Aoinv wit_Afinv wit_y O O = q7_8 /\
+  cov_unmasked_old 2 wit_KJ wit_Ainv O O = q4_5.
+Proof.
+  split; [split; apply meqb_sound; vm_compute; reflexivity|].
+  split; [split; apply meqb_sound; vm_compute; reflexivity|].
+  split; [split; apply meqb_sound; vm_compute; reflexivity|].
+  split; [reflexivity|].
+  split; [apply Qc_is_canon; vm_compute; reflexivity|].
+  split; apply Qc_is_canon; vm_compute; reflexivity.
 Qed.
